@@ -315,6 +315,9 @@ func runC07(c *core.Ctx) error {
 		// (every program was gated here at first: hours of native compilation under load; a tenth
 		// of them, and every program a verdict is taken on - see RunProgCases - is what is needed)
 		gf = 0.1
+		if n := len(cases); n > 30000 {
+			gf = 3000.0 / float64(n) // native compilation costs about half a second per program
+		}
 	}
 	c.Assume("calls and defers only target higher-numbered functions (termination); recover across compiled/interpreted frames excluded (documented limitation)")
 	return RunProgCases(c, cases, ProgOpts{GateFraction: gf, Sig: c07Sig, Prelude: c07Prelude, Book: true})
